@@ -243,7 +243,7 @@ pub fn pick_kind(rng: &mut Rng, stable: bool) -> MergeKind {
 
 pub fn run(ctx: &Ctx, part: &str) -> i32 {
     if part.is_empty() || part == "main" {
-        let n = ctx.n(4000, 150_000);
+        let n = ctx.n(12_000, 200_000);
         ctx.par("small", n, true, |idx, rng| {
             let mut scfg = gen_scfg(rng);
             scfg.parallel = scfg.parallel && rng.chance(1, 2);
@@ -267,7 +267,7 @@ pub fn run(ctx: &Ctx, part: &str) -> i32 {
     }
     if part.is_empty() || part == "main" || part == "par" {
         // parallel sort with > 4000 entries per spilled run
-        let n = ctx.n(40, 800);
+        let n = ctx.n(80, 1200);
         ctx.par("parallel", n, true, |idx, rng| {
             let mut scfg = gen_scfg(rng);
             scfg.parallel = true;
@@ -285,7 +285,7 @@ pub fn run(ctx: &Ctx, part: &str) -> i32 {
     }
     if part.is_empty() || part == "main" {
         // real thresholds through the public API (no hook H2): 10 MiB budget, 12-60 MiB inserted
-        let n = ctx.n(8, 200);
+        let n = ctx.n(10, 200);
         ctx.par("real-threshold", n, true, |idx, rng| {
             let scfg = SCfg {
                 budget: *rng.pick(&[0usize, 1024, 10 * 1024 * 1024]),
@@ -300,6 +300,7 @@ pub fn run(ctx: &Ctx, part: &str) -> i32 {
                 block_size: None,
                 interval: None,
                 levels: if rng.chance(1, 2) { None } else { Some(2) },
+                order: rng.next_u64(),
             };
             let kind = pick_kind(rng, scfg.stable);
             let total = rng.range(12, 60) * 1024 * 1024;
